@@ -1,17 +1,27 @@
 // C15 — DataFrame cells round trip through row, cell and column access.
 //
-// Explicit-state exploration (E1) per column schema: every sequence (up to the depth bound) of
-//   rows(n) | writeRow(r) | writeCell(r,c) | writeCells(r, subset by name|index|mixed) |
-//   writeColumn(c, vals, offset, count) inside / touching / past the end | REOPEN
-// from an empty frame and from a frame with two fully written rows, replayed on a fresh file.  The reference model
-// is a grid rows x columns (unwritten = 0 / false / ""; shrinking drops rows, growing adds zero rows; a column write
-// that does not fit into the rows must be rejected and change nothing).  After the last step of every sequence (every
-// prefix is a sequence of its own) ALL read paths of a handle kept alive across the steps and of a freshly fetched
-// handle are compared with the grid for every cell: readRow, readCell by index and by name, readCells (all names,
-// reversed, subset), readColumn by name / by index, resize on / off, with offsets and with an explicit count; plus
-// rows(), columns(), colIndex, colName (scalar and vector forms) and units against the schema.
-// Every written value is distinct within a sequence (counter mapped into the type's domain, interleaved with the
-// type's extreme values), every read buffer is pre-filled with sentinels.
+// Explicit-state exploration (E1) per column schema (every single-type schema of 1 and 2 columns over Bool, Int32,
+// UInt32, Int64, UInt64, Double, String; two mixed 3-column schemas; one mixed 8-column schema; with units): every
+// sequence (up to the depth bound) of
+//   rows(n in 0..3) | writeRow(r) | writeCell(r,c) | writeCells(r, subset by name | by index | mixed) |
+//   writeColumn(c, vals, offset, count) inside / touching / past the end of the rows / empty | REOPEN
+// from an empty frame and from a frame with two fully written rows, each sequence replayed on a fresh file.
+// Reference model: a grid rows x columns (unwritten = 0 / false / ""; shrinking drops rows, growing adds zero rows; a
+// column write that does not fit into the rows must throw and change nothing; for an empty column write only "changes
+// nothing" is asserted).  Row / cell writes to rows that do not exist, values of another type than the column and rows
+// with a wrong number of values are outside the statement and not generated.
+// After the LAST step of every sequence (every prefix is a sequence of its own, so this is "after every step") a
+// handle kept alive across the steps and a freshly fetched handle are both read and compared with the grid for every
+// cell.  One of the two (alternating with the sequence) goes through every read path: readRow, readCell by index and by
+// name, readCells (all names, reversed, subset), readColumn by name / by index with resize on / off, with offsets, into
+// short and into over-long pre-sized vectors and with an explicit count; the other one through readRow and a whole
+// readColumn per column.  Both: rows(), columns() (names, units, types, order), colIndex / colName (scalar and vector).
+// A cell that every path reads wrongly in the same way is reported against the last operation (what is stored is not
+// what the history says); a path that disagrees with the others is reported against that read path.
+// Every written value is distinct within a sequence (a counter mapped into the type's domain, interleaved with the
+// type's extreme values: INT_MIN/MAX, UINT64_MAX, NaN with payload, +-inf, -0.0, "", UTF-8, 300 characters ...; doubles
+// are compared bitwise); every read buffer is pre-filled with sentinels.  A sequence is not extended past the first
+// step after which something is wrong.
 #include <nix.hpp>
 #include <cstring>
 #include <climits>
@@ -505,7 +515,7 @@ struct Runner {
             if (rep) {
                 cnt("steps_checked");
                 dst("outcomes", opc + "|" + (exc.empty() ? "accepted" : exc));
-                if (vf::opt.verbose && !quiet) fprintf(stderr, "C15 trace: %s => %s%s%s\n", trace.c_str(), exc.empty() ? "accepted" : exc.c_str(), exc.empty() ? "" : ": ", exc.empty() ? "" : what.c_str());
+                if (vf::opt.verbose) fprintf(stderr, "C15 %strace: %s => %s%s%s\n", quiet ? "(quiet) " : "", trace.c_str(), exc.empty() ? "accepted" : exc.c_str(), exc.empty() ? "" : ": ", exc.empty() ? "" : what.c_str());
                 for (auto &v : vals) dst("values", std::string(tname(v.t)) + "|" + v.cls);
             }
             lastop = ops;
@@ -827,11 +837,19 @@ int main(int argc, char **argv) {
                     Runner R(S, vf::scratch_file("c15.h5"));
                     std::string lead = step_str(S, alpha[first]);
                     if (second >= 0) lead += " ; " + step_str(S, alpha[(size_t)second]);
-                    vf::case_desc("schema " + S.label + ", " + (seed ? "seed 2 written rows" : "seed empty frame") + ", sequences starting with " + lead +
-                                  (split && second < 0 ? " (that sequence alone)" : "") + ", depth " + std::to_string(depth));
+                    const std::string base = "schema " + S.label + ", " + (seed ? "seed 2 written rows" : "seed empty frame") + ", depth " + std::to_string(depth) +
+                                             ", sequences starting with " + lead + (split && second < 0 ? " (that sequence alone)" : "");
+                    vf::case_desc(base);
                     std::vector<Step> seq = {alpha[first]};
+                    // the sequence that is running goes into the progress record, so that a crash is attributed to it
+                    auto mark = [&](const char *how) {
+                        std::string q;
+                        for (const Step &s : seq) q += (q.empty() ? "" : " ; ") + step_str(S, s);
+                        vf::case_desc(base + " | " + how + ": " + q);
+                    };
                     std::function<void()> rec = [&]() {
                         if (vf::deadline_hit()) return;
+                        mark("running");
                         bool ext = R.run(seed, seq, true);
                         vf::count("traces");
                         if (ext) vf::count("transitions");
@@ -845,10 +863,11 @@ int main(int argc, char **argv) {
                     };
                     if (m0.classify(alpha[first]) == 0) continue;
                     if (!split || m0.classify(alpha[first]) != 1) { if (second < 0) rec(); }
-                    else if (second < 0) { if (R.run(seed, seq, true)) vf::count("transitions"); vf::count("traces"); }
+                    else if (second < 0) { mark("running"); if (R.run(seed, seq, true)) vf::count("transitions"); vf::count("traces"); }
                     else {
                         const Step &s2 = alpha[(size_t)second];
                         if (s2.kind == REOPEN && alpha[first].kind == REOPEN) continue;
+                        mark("re-checking the leading step quietly");
                         if (!R.run(seed, seq, true, true)) continue;      // checked quietly: the leading step alone is reported by its own case
                         seq.push_back(s2);
                         if (classify_last(S, seed, seq) != 0) rec();
